@@ -46,7 +46,7 @@ def plan(tier, seed):
     n = 8 if tier == "quick" else 600
     cases = [{"seed": common.subseed(seed, "c12", i), "steps": 8 if tier == "quick" else 16} for i in range(n)]
     for i in range(6 if tier == "quick" else 300):
-        cases.append({"seed": common.subseed(seed, "c12d", i), "steps": 5 if tier == "quick" else 10, "directed": ["unused-package", "attic", "url-release"][i % 3]})
+        cases.append({"seed": common.subseed(seed, "c12d", i), "steps": 5 if tier == "quick" else 10, "directed": ["unused-package", "attic", "url-release"][i % 3], "_first": i < 12})
     return cases
 
 
